@@ -41,7 +41,7 @@ pub open spec fn oracle_majority(trusted: Seq<PublicKey>, atts: Seq<(PublicKey, 
         r.is_ok() && vx_strict(T_policy_chain_validated) ==> oracle_majority(trusted_oracle_pubkeys@, proof.attestations@),   //[C13.oracle.majority]
 // the iterator expression is desugared by hand into the two loops it denotes (R-manual):
 //   trusted.iter().filter(|&k| proof.attestations.iter().find(|(a, _)| *a == *k).is_some()).count()
-//@sub /(?s)let key_matches = trusted_oracle_pubkeys\s*\.iter\(\)\s*\.filter\(\|&trusted_key\| \{\s*proof\.attestations\.iter\(\)\.find\(\|\(a, _\)\| \*a == \*trusted_key\)\.is_some\(\)\s*\}\)\s*\.count\(\);/ => let mut key_matches: usize = 0;\nfor trusted_key in trusted_oracle_pubkeys.iter() {\nlet mut vx_found = false;\nfor vx_att in proof.attestations.iter() {\nif vx_att.0 == *trusted_key { vx_found = true; }\n}\nif vx_found { key_matches += 1; }\n}
+//@sub /(?s)let key_matches = trusted_oracle_pubkeys\s*\.iter\(\)\s*\.filter\(\|&trusted_key\| \{?\s*proof\.attestations\.iter\(\)\.(?:find\(\|\(a, _\)\| \*a == \*trusted_key\)\.is_some\(\)|any\(\|\(a, _\)\| \*a == \*trusted_key\))\s*\}?\)\s*\.count\(\);/ => let mut key_matches: usize = 0;\nfor trusted_key in trusted_oracle_pubkeys.iter() {\nlet mut vx_found = false;\nfor vx_att in proof.attestations.iter() {\nif vx_att.0 == *trusted_key { vx_found = true; }\n}\nif vx_found { key_matches += 1; }\n}
 //@sub /(?s)Err\(VerifyError::InvalidAttestation\) => \{\s*for \(pubkey, attestation\) in &proof\.attestations \{\s*\}/ => Err(VerifyError::InvalidAttestation) => {
 //@loop 1 iter=it
         invariant
